@@ -117,11 +117,14 @@ type VC struct {
 	bitsExact bool
 	nativeArith bool
 	axioms   []string
+	onlyKinds map[string]bool
+	onlyLabels map[string]bool
+	dropped  map[string]int
 }
 
 func newVC(eng *Engine, key string) *VC {
 	return &VC{eng: eng, fnKey: key, declared: map[string]string{}, heapSort: map[string]string{},
-		abstr: map[string]bool{}, assumed: map[string]bool{}, specUsed: map[string]bool{}, oblCount: map[string]int{}}
+		abstr: map[string]bool{}, assumed: map[string]bool{}, specUsed: map[string]bool{}, oblCount: map[string]int{}, dropped: map[string]int{}}
 }
 
 func (vc *VC) fresh(prefix, sort string) string {
@@ -188,6 +191,11 @@ func (vc *VC) heapSet(st *State, name, term string) {
 }
 
 func (vc *VC) heapHavoc(st *State, name string) string {
+	if vc.eng.immutable[name] {
+		// fields declared immutable are only written at construction (checked
+		// separately): a havoc leaves them alone
+		return vc.heapGet(st, name)
+	}
 	c := vc.fresh(name, vc.heapSort[name])
 	st.heaps[name] = c
 	return c
